@@ -5,8 +5,9 @@ C13, routing and environment part, as executable predicates.
   * `mustBeSent`: the request is for an existing regular file that carries the extension of a
     rule (in any letter case) under that rule's path and is not excepted.  Such a request must
     reach a responder (`routeVerdict`): it must never fall through to the static file server.
-  * `envVerdict`: what the responder received — every request header as HTTP_*, script name and
-    path info split at the split string, every configured env entry, exactly the body.
+  * `envVerdict`: what the responder received — every request header as HTTP_* and no HTTP_*
+    variable that is not a header of this request, script name and path info split at the split
+    string, every configured env entry, exactly the body.
 -/
 namespace Casket.FCGIRouteSpec
 open Casket.Fault Casket.FCGIRoute
@@ -49,11 +50,20 @@ def scriptCandidates (r : Req) (rule : Rule) : List Bytes :=
   let f := trimRightSpDot r.path
   f :: rule.index.map (join2 (if f.isEmpty then [slash] else f))
 
+/-- a variable name this request may carry: anything outside the `HTTP_` namespace (which CGI reserves
+for the request's header fields), `HTTP_HOST`, a configured entry, or the name of one of the
+request's own headers -/
+def ownVar (r : Req) (rule : Rule) (k : Bytes) : Bool :=
+  !hasPrefix k (bytes "HTTP_") || k == bytes "HTTP_HOST" || rule.env.any (fun kv => kv.1 == k) ||
+  r.headers.any (fun h => envName h.1 == k)
+
 /-- what the responder received (`env`, `stdin`) for request `r` routed by `rule` -/
 def envVerdict (cs : Bool) (r : Req) (rule : Rule) (env : List (Bytes × Bytes)) (stdin : Bytes) : String :=
   if !noCollisions r rule then "ok" else
   if !r.headers.all (fun h => lookup env (envName h.1) == some (joinComma h.2)) then
     "bad:headers:a request header does not arrive as HTTP_*"
+  else if !env.all (fun kv => ownVar r rule kv.1) then
+    "bad:headers:the responder receives an HTTP_* variable that no header of this request stands for"
   else if !rule.env.all (fun kv => lookup env kv.1 == some kv.2 ||
       [bytes "REQUEST_METHOD", bytes "CONTENT_LENGTH", bytes "CONTENT_TYPE"].contains kv.1) then
     "bad:env:a configured env entry does not arrive"
